@@ -49,6 +49,67 @@ CLAIMED = {
         "technique": "Coq proof over executable model + generated facts + differential correspondence (Spec and Impl variants)",
         "design": "DESIGN.md section 6, C03",
     },
+    "C04": {
+        "text": "Theorems for every pair of hash functions: dumps_sorted is invariant under permutation of object members at any depth; all five identities (node uuids, node semantic ids, "
+                "pipeline id, semantic id, config id) and the sorted required-key list are equal for configurations related by cfg_equiv (member permutation of every mapping incl. sweep variable / "
+                "parameter maps, and AC-rearrangement of sweep expressions via the C12 relation); ids are pure: for every prior history of builds / runs / inspections the implementation-level model "
+                "returns the Spec ids. The two facts the proofs need (sorted from_context keys, enrich-on-copy) are generated/probed with hard reflexivity obligations (both repaired by fix commits; "
+                "refuted_when witnesses kept). Closed under the global context. Metamorphic correspondence: YAML rewrites x {in-process after other pipelines, fresh process} x hash seeds x working "
+                "directories x four id paths, and string equality of the model's canonical JSON preimages with the implementation's.",
+        "note": "Models coq/Model/Json.v, Identity.v; hash functions are Section variables (hash_ok premise has an Example); JSON strings restricted to printable ASCII without quote/backslash; per-node registry facts "
+                "(class names, kinds) are read from the registry, not modelled.",
+        "technique": "Coq proof (permutation invariance, refinement over histories) + generated/probed facts + metamorphic and preimage correspondence",
+        "design": "DESIGN.md section 6, C04",
+    },
+    "C05": {
+        "text": "Theorems: the canonical JSON text is injective (token-level prefix code and character-level rendering both proved); node_json differs for different positions (declaration_index), so node uuids "
+                "are distinct within a pipeline; semantic id, node semantic id and config id discriminate in collision-explicit form (equal ids imply equal identity fields or an explicit hash collision); "
+                "one lemma per mutation operator (processor, parameter value at any depth, insert/delete/swap, every sweep field incl. non-equivalent expressions via C12's sig_norm). The semantic id's "
+                "dependence on the sweep block is a generated fact with a hard obligation (repaired by a fix commit). Closed under the global context. Every single-point mutation at every position of "
+                "generated configurations is run through the implementation and compared with hashed model preimages; pairwise inequality is asserted directly on the implementation.",
+        "note": "Same models as C04. Open finding F-C05-b: members literally named 'expr' are dropped from the node semantic id (the model reproduces it; discrimination lemmas carry dropped name = false).",
+        "technique": "Coq proof (injectivity of canonical JSON, collision-explicit discrimination) + generated facts + mutation correspondence",
+        "design": "DESIGN.md section 6, C05",
+    },
+    "C09": {
+        "text": "Theorems over a launch model (Spec = map of standalone runs in plan order up to the first failure; Impl = one Pipeline object and one driver reused across runs): per-run records equal the "
+                "standalone ones, a run's records depend only on its own context (no leak), exactly one run_space_start first and one run_space_end last with truthful planned/completed counts and exit code, "
+                "every pipeline_start carries launch id / attempt / 0-based index / context, inspect and runtime spec ids agree, spec id invariant under key order and discriminating modulo explicit collision, "
+                "launch ids from an idempotency key reproducible, inputs id changes iff a fingerprint changes. The two facts (enrich-on-copy, spec-id paths agree) have hard obligations after the fix commits. "
+                "Closed under the global context. End-to-end correspondence through CLI subprocesses (launch vs standalone runs, failing run at every index, file/directory output, id options, rewrites, mutations).",
+        "note": "Model coq/Model/Launch.v (+RunSpace.v, Pipeline.v); hash functions are Section variables; canonical RSCF text compared as strings; directory-mode run-space files are merged by the harness.",
+        "technique": "Coq proof (refinement Impl-to-Spec, bracket grammar) + generated facts + CLI end-to-end correspondence",
+        "design": "DESIGN.md section 6, C09",
+    },
+    "C16": {
+        "text": "Theorems by structural induction over a closed grammar of node configurations with unbounded slice/sweep nesting: every generated node and processor metadata view passes all error-level "
+                "metadata rules of the contract catalogue, the node view mirrors the processor view (sources take NoDataType, sinks/probes pass their input type, probes add their context key), and gen is "
+                "total exactly on valid configurations. The two facts needed (sweep created-key de-duplication, probe nodes mirroring processor keys) have hard obligations after the fix commits. Closed under "
+                "the global context. Real classes are built through the real factories up to nesting depth 3, validate_component is run on node and processor classes, and metadata is compared with the model; "
+                "the rule models are validated separately against the real rule functions.",
+        "note": "Model coq/Model/Contracts.v; reflection-level rules (SVA001-012, 102, 241, 250) are checked by the correspondence run only, not proved.",
+        "technique": "Coq structural induction over configuration grammar + generated rule/dispatch tables + differential correspondence on real generated classes",
+        "design": "DESIGN.md section 6, C16",
+    },
+    "C17": {
+        "text": "Theorems over a model of the CLI run command as an ordered decision chain regenerated from cli/__init__.py (every return attributed to a stage, exit-code table, loop shape): a request rejected at any "
+                "pre-flight stage (unloadable/invalid config, missing required key, invalid or over-cap run space, --validate, --dry-run, run-space dry run) produces no NodeRan / SinkWrote / TraceFile effect and the "
+                "documented exit code; exit 0 iff every planned run completed; after a failed run no later run starts. Closed under the global context. CLI subprocess correspondence over valid and invalid "
+                "configurations x flag combinations (exit code, sink files, trace files, node starts per run), plus direct oracles.",
+        "note": "Model coq/Model/Cli.v composed with Inspect.v / RunSpace.v / Pipeline.v; KeyboardInterrupt (exit 5) and argparse usage errors only appear in the generated table; --validate returns before run-space planning (oracle accepts 0 or 3 there).",
+        "technique": "Coq proof over generated decision chain + CLI subprocess correspondence",
+        "design": "DESIGN.md section 6, C17",
+    },
+    "C18": {
+        "text": "Theorems over a model of process-wide state (component registry, memo caches, transport queue of the current Pipeline, worker job channels, live generated classes) and the four ways of repeating a run: "
+                "stability after warm-up conditional on the generated facts (classes memoised or unregistered, outputs consumed, channels removed), and for the CURRENT facts the closed forms "
+                "|registry(N runs)| = |registry| + N*k(cfg), queue = q0 + N*len(cfg), +2 job channels per worker job, for every configuration and N (so the property is refuted on the current tree: open findings "
+                "F-C18-a/b/c, printed as KNOWN-FINDING). Closed under the global context. Predicted counts are compared with counts measured in fresh subprocesses after 1/10/30/90/150 (thorough 1/50/150/450) runs.",
+        "category": "proof",
+        "note": "Model coq/Model/Registry.v; the gc-tracked object population is measured and reported only (CPython allocator/GC is not modelled).",
+        "technique": "Coq closed-form induction over run count + generated structural facts + measured-count correspondence",
+        "design": "DESIGN.md section 6, C18",
+    },
     "C08": {
         "text": "Theorems over an executable model of expand_run_space: sorted-key order, mixed-radix characterisation of the Cartesian product (last key fastest), by_position alignment, "
                 "block and combine characterisations, every run carries exactly the union of keys, every documented rejection, cap rejection (unconditional now that the no-blocks cap "
